@@ -364,6 +364,54 @@ static void dec_expect(const fam_t *f, const char *mut, int want_ok, const uint8
     gfree(m); gfree(cb);
 }
 
+/* One call carrying more than 65536 full rate blocks (a block counter narrower than size_t wraps; C02-9 of the seeded
+ * round 5 escaped because no single call was longer than 64 KiB).  Too long for the per-byte forgery sweep of case_dec:
+ * one valid decryption and a handful of forgeries whose changed bit lies in the part a wrapped counter would skip. */
+static void case_dec_huge(rng_t *r, uint64_t idx, const fam_t *f)
+{
+    size_t blocks = 65536u + rng_below(r, 3), tail = rng_below(r, f->rate);
+    int which = (int)rng_below(r, 3);          /* 0: long message, 1: long AD, 2: both */
+    size_t mlen = which != 1 ? blocks * f->rate + tail : rng_below(r, 40);
+    size_t adlen = which != 0 ? blocks * f->rate + rng_below(r, f->rate) : rng_below(r, 40);
+    size_t clen = 0, j;
+    vec_t v;
+    uint8_t *exp, *tmp;
+    char key[96];
+    vec_make(r, f, &v, adlen, mlen, (int)rng_below(r, 128));
+    if (f->kind == K_MASKED) tape_set((int)rng_below(r, TAPE_NMODES), rng_u64(r));
+    vf_progress("case=%llu dec-huge %s adlen=%zu mlen=%zu", (unsigned long long)idx, f->name, adlen, mlen);
+    exp = (uint8_t *)malloc(mlen + 16);
+    ref_enc(f, exp, v.m, mlen, v.ad, adlen, v.n, v.k);
+    f->enc(v.c, &clen, v.m, mlen, v.ad, adlen, v.n, v.k);
+    snprintf(key, sizeof(key), "enc:%s:ciphertext", f->name);
+    vf_eq(FPROP(f), key, "ciphertext||tag (single call of more than 65536 rate blocks)", v.c, exp, mlen + 16,
+          "\"alg\":\"%s\",\"adlen\":%zu,\"mlen\":%zu", f->name, adlen, mlen);
+    clen = mlen + 16;
+    /* decrypt what the specification says the ciphertext is, so that a wrong encryption does not mask the decrypt side */
+    dec_expect(f, "none-huge", 1, exp, clen, v.ad, adlen, v.n, v.k, v.m, 0);
+    tmp = (uint8_t *)malloc((adlen > clen ? adlen : clen) + 1);
+    for (j = 0; j < 3; ++j) {
+        size_t pos;
+        if (mlen > 70000) {
+            pos = j == 0 ? mlen - 1 - rng_below(r, (uint32_t)(mlen / 2)) : j == 1 ? rng_below(r, (uint32_t)mlen) : rng_below(r, 16 * f->rate);
+            memcpy(tmp, exp, clen); tmp[pos] ^= (uint8_t)(1u << rng_below(r, 8));
+            dec_expect(f, "ct-bit-huge", 0, tmp, clen, v.ad, adlen, v.n, v.k, v.m, pos);
+        }
+        if (adlen > 70000) {
+            pos = j == 0 ? adlen - 1 - rng_below(r, (uint32_t)(adlen / 2)) : j == 1 ? rng_below(r, (uint32_t)adlen) : rng_below(r, 16 * f->rate);
+            memcpy(tmp, v.ad, adlen); tmp[pos] ^= (uint8_t)(1u << rng_below(r, 8));
+            dec_expect(f, "ad-bit-huge", 0, exp, clen, tmp, adlen, v.n, v.k, v.m, pos);
+        }
+    }
+    memcpy(tmp, exp, clen); tmp[clen - 1 - rng_below(r, 16)] ^= 0x80;
+    dec_expect(f, "tag-bit-huge", 0, tmp, clen, v.ad, adlen, v.n, v.k, v.m, 0);
+    vf_distinct("dec-huge|%s|%s", f->name, which == 0 ? "long-m" : which == 1 ? "long-ad" : "long-both");
+    vf_max("max_mlen", (long)mlen); vf_max("max_adlen", (long)adlen);
+    vf_count("huge_single_call_cases", 1);
+    free(tmp); free(exp);
+    vec_free(&v);
+}
+
 static void case_dec(rng_t *r, uint64_t idx, int thorough)
 {
     const fam_t *f = &FAMS[idx % NFAM];
@@ -633,6 +681,20 @@ int main(int argc, char **argv)
             rng_seed(&r, a.seed ^ 0xdec, idx); cur_rng = &r;
             vf_case_begin(idx);
             case_dec(&r, idx, a.thorough);
+            vf_case_end();
+            vf_count("cases", 1);
+        }
+        /* one (thorough: three) single call(s) of more than 65536 rate blocks per family */
+        /* (only in the full-size decrypt workload of C02 / thorough C10: the short dec runs of the sanitizer, valgrind and
+         *  cross-configuration checks keep their cost) */
+        for (idx = 0; (a.cases < 0 || a.cases >= 500) && idx < (uint64_t)NFAM * (a.thorough ? 3 : 1); ++idx) {
+            rng_t r;
+            uint64_t id2 = (1ull << 41) + idx;
+            if (!vf_mine(&a, id2)) continue;
+            if (!fam_on(&FAMS[idx % NFAM])) continue;
+            rng_seed(&r, a.seed ^ 0xdec, id2); cur_rng = &r;
+            vf_case_begin(id2);
+            case_dec_huge(&r, id2, &FAMS[idx % NFAM]);
             vf_case_end();
             vf_count("cases", 1);
         }
